@@ -61,7 +61,7 @@ func buildTree(par []int, aliasMask, optMask, clash int, sameName bool, exec boo
 	top.SubOptional = optMask&1 != 0
 	if envInt {
 		// an int option whose value may come from the environment
-		top.Opts = append(top.Opts, &decl.Opt{Field: "E", Long: "envint", Type: decl.TInt, Env: "C09_ENV"})
+		top.Opts = append(top.Opts, &decl.Opt{Field: "E", Long: "envint", Type: decl.TInts, Env: "C09_ENV", EnvDelim: ","})
 	}
 	cmds := make([]*decl.Cmd, n)
 	flagLetter := make([]string, n)
@@ -114,6 +114,9 @@ func buildTree(par []int, aliasMask, optMask, clash int, sameName bool, exec boo
 	}
 	if reqNode > 0 {
 		cmds[reqNode-1].Opts[0].Required = "yes"
+		if reqNode%2 == 0 {
+			cmds[reqNode-1].Opts[0].Hidden = "yes" // hidden from help, required all the same
+		}
 	}
 	if posNode > 0 {
 		// odd nodes get an int as first positional so that a word can fail to convert
